@@ -249,6 +249,9 @@ def gen_case(r, version):
             rec = st_.model.recs[i]
             pool = [n for n in INT_NAMES + H.FRESH[:6] + H.POOL.get(rec.rt if rec.rt in H.POOL else "S", []) if n not in names
                     and n not in st_.model.undefined_mentions()]
+            if rec.rt in ("E", "G", "O", "U") and gen.chance(r, 0.3) and \
+                    not any(m_[0] == M.name_of(rec) for x in st_.model.recs for m_ in M.mentions(x)):
+                pool = ["*"]  # the placeholder: the line becomes unnamed
             if not pool:
                 continue
             ops.append(rename_op(st_, r, i, gen.choice(r, pool)))
